@@ -1010,7 +1010,17 @@ namespace bluetoe {
 
         // if the ending handle points not on an existing attribute, the search will end at the next, lower handle
         if ( ending_index != details::invalid_attribute_index && handle_mapping::handle_by_index( ending_index ) != ending_handle )
+        {
+            // all attributes have handles behind the requested range
+            if ( ending_index == 0 )
+                return error_response( *input, details::att_error_codes::attribute_not_found, starting_handle, output, out_size );
+
             --ending_index;
+        }
+
+        // no attribute within the requested range
+        if ( ending_index != details::invalid_attribute_index && start_index > ending_index )
+            return error_response( *input, details::att_error_codes::attribute_not_found, starting_handle, output, out_size );
 
         std::uint8_t*        write_ptr = &output[ 0 ];
         std::uint8_t* const  write_end = write_ptr + out_size;
@@ -1577,7 +1587,11 @@ namespace bluetoe {
                 // if the ending_handle does not point to a specific handle, the last attribute befor that is ment.
                 if ( ending_index_ != details::invalid_attribute_index && details::handle_index_mapping< Server >::handle_by_index( ending_index_ ) != ending_handle )
                 {
-                    --ending_index_;
+                    // all attributes have handles behind the requested range: nothing can match
+                    if ( ending_index_ == 0 )
+                        starting_index_ = details::invalid_attribute_index;
+                    else
+                        --ending_index_;
                 }
             }
 
